@@ -38,7 +38,39 @@ impl KeySpec {
     }
 }
 
+/// Seeds 248..=255 stand for Ed25519 key pairs found by search (`itv find-colliders`): the key ids of 248/249 and of
+/// 250/251 share their first eight hexadecimal characters in the PKCS#8 form (`pkcs8: true`, id computed with the
+/// hash-algorithm list), those of 252/253 and of 254/255 in the raw form. Two such keys are told apart by nothing that
+/// a link file name carries.
+pub const COLLIDER_COUNTERS: [u32; 8] = [13285, 17403, 24980, 44466, 14149, 24132, 27833, 53712];
+pub const COLLIDER_BASE: u8 = 248;
+
+pub fn wide_seed(c: u32) -> [u8; 32] {
+    let mut s = [0x6bu8; 32];
+    s[..4].copy_from_slice(&c.to_le_bytes());
+    s[4..12].copy_from_slice(b"collider");
+    s
+}
+
+/// The other key of a colliding pair (same `pkcs8` form), if `k` is one.
+pub fn collider_of(k: &KeySpec) -> Option<KeySpec> {
+    match k {
+        KeySpec::Ed { seed, pkcs8 } if *seed >= COLLIDER_BASE => Some(KeySpec::Ed { seed: COLLIDER_BASE + ((*seed - COLLIDER_BASE) ^ 1), pkcs8: *pkcs8 }),
+        _ => None,
+    }
+}
+
+/// The i-th colliding pair, in the form in which it collides.
+pub fn collider_pair(i: u8) -> (KeySpec, KeySpec) {
+    let j = i % 4;
+    let pkcs8 = j < 2;
+    (KeySpec::Ed { seed: COLLIDER_BASE + 2 * j, pkcs8 }, KeySpec::Ed { seed: COLLIDER_BASE + 2 * j + 1, pkcs8 })
+}
+
 pub fn ed_seed_bytes(seed: u8) -> [u8; 32] {
+    if seed >= COLLIDER_BASE {
+        return wide_seed(COLLIDER_COUNTERS[(seed - COLLIDER_BASE) as usize]);
+    }
     let mut s = [0u8; 32];
     for (i, b) in s.iter_mut().enumerate() {
         *b = seed.wrapping_mul(31).wrapping_add(i as u8).wrapping_mul(17) ^ 0x5a;
